@@ -112,7 +112,7 @@ def correspondence(ctx, model_ok):
 
 
 def oracle_cases(ctx, corr):
-    return [{'circuit': c['circuit'], 'outs': c['outs']} for c in getattr(corr, '_cases', [])]
+    return [{'circuit': c['circuit'], 'outs': c['outs']} for c in getattr(corr, '_cases', [])] + tc.large_cases()
 
 
 def oracle(case):
@@ -129,7 +129,7 @@ def shrink(case, msg):
 
 def search(ctx, budget_s):
     t0 = time.time()
-    for case in tc.fixed_corpus():
+    for case in list(tc.fixed_corpus()) + tc.large_cases():
         msg = oracle(case)
         if msg:
             return case, msg
